@@ -117,37 +117,170 @@ theorem exists_idle_of_lt_nIdle (locks : List Bool) (i : Nat) (h : i < nIdle loc
 /-- the rank of a slot only looks at the locks before it -/
 theorem rank_set_self (locks : List Bool) (e : Nat) (b : Bool) :
     rank (locks.set e b) e = rank locks e := by
-  sorry
+  unfold rank
+  rw [List.take_set_of_le (Nat.le_refl e)]
 
 /-- row `rank locks s` of the idle block is row `s` of `W` without the busy columns -/
 theorem idle_getD_rank (W : Mat) (locks : List Bool) (s : Nat) (hW : W.length = locks.length)
     (hs : locks[s]? = some false) :
     (idle W locks).getD (rank locks s) [] = keep locks (W.getD s []) := by
-  sorry
+  have hlt : rank locks s < (keep locks W).length := by
+    rw [keep_length locks W hW]; exact rank_lt locks s hs
+  unfold idle
+  rw [List.getD_eq_getElem?_getD, List.getElem?_map, List.getElem?_eq_getElem hlt]
+  simp only [Option.map_some, Option.getD_some]
+  have := keep_getD_rank ([] : Row) locks W s hs
+  rw [List.getD_eq_getElem?_getD, List.getElem?_eq_getElem hlt] at this
+  simp only [Option.getD_some] at this
+  rw [this]
 
 /-! ## `keep` under updates of the lists -/
+
+theorem keep_nil {α : Type} (locks : List Bool) : keep locks ([] : List α) = [] := by
+  cases locks <;> rfl
 
 theorem keep_lock {α : Type} (locks : List Bool) (xs : List α) (e : Nat)
     (h : locks[e]? = some false) :
     keep (locks.set e true) xs = (keep locks xs).eraseIdx (rank locks e) := by
-  sorry
+  induction locks generalizing xs e with
+  | nil => simp at h
+  | cons l ls ih =>
+    cases xs with
+    | nil => simp [keep_nil]
+    | cons x xs =>
+      cases e with
+      | zero =>
+        simp only [List.getElem?_cons_zero, Option.some.injEq] at h
+        subst h
+        simp [keep, rank]
+      | succ e =>
+        simp only [List.getElem?_cons_succ] at h
+        rw [List.set_cons_succ, rank_cons_succ]
+        cases l <;> simp [keep, ih xs e h, Nat.add_comm 1]
 
 theorem keep_set_locked {α : Type} (locks : List Bool) (xs : List α) (i : Nat) (x : α)
     (h : locks[i]? = some true) : keep locks (xs.set i x) = keep locks xs := by
-  sorry
+  induction locks generalizing xs i with
+  | nil => simp at h
+  | cons l ls ih =>
+    cases xs with
+    | nil => simp
+    | cons y ys =>
+      cases i with
+      | zero =>
+        simp only [List.getElem?_cons_zero, Option.some.injEq] at h
+        subst h
+        simp [keep]
+      | succ i =>
+        simp only [List.getElem?_cons_succ] at h
+        rw [List.set_cons_succ]
+        cases l <;> simp [keep, ih ys i h]
 
 theorem keep_set_idle {α : Type} (locks : List Bool) (xs : List α) (i : Nat) (x : α)
     (h : locks[i]? = some false) :
     keep locks (xs.set i x) = (keep locks xs).set (rank locks i) x := by
-  sorry
+  induction locks generalizing xs i with
+  | nil => simp at h
+  | cons l ls ih =>
+    cases xs with
+    | nil => simp [keep_nil]
+    | cons y ys =>
+      cases i with
+      | zero =>
+        simp only [List.getElem?_cons_zero, Option.some.injEq] at h
+        subst h
+        simp [keep, rank]
+      | succ i =>
+        simp only [List.getElem?_cons_succ] at h
+        rw [List.set_cons_succ, rank_cons_succ]
+        cases l <;> simp [keep, ih ys i h, Nat.add_comm 1]
+
+theorem keep_getElem?_rank {α : Type} (locks : List Bool) (xs : List α) (i : Nat)
+    (h : locks[i]? = some false) : (keep locks xs)[rank locks i]? = xs[i]? := by
+  induction locks generalizing xs i with
+  | nil => simp at h
+  | cons l ls ih =>
+    cases xs with
+    | nil => simp [keep_nil]
+    | cons y ys =>
+      cases i with
+      | zero =>
+        simp only [List.getElem?_cons_zero, Option.some.injEq] at h
+        subst h
+        simp [keep, rank]
+      | succ i =>
+        simp only [List.getElem?_cons_succ] at h
+        rw [rank_cons_succ]
+        cases l <;> simp [keep, ih ys i h, Nat.add_comm 1]
 
 /-- every element kept comes from an idle position -/
 theorem mem_keep {α : Type} (locks : List Bool) (xs : List α) (x : α) (h : x ∈ keep locks xs) :
     ∃ i : Nat, locks[i]? = some false ∧ xs[i]? = some x := by
-  sorry
+  induction locks generalizing xs with
+  | nil => simp [keep] at h
+  | cons l ls ih =>
+    cases xs with
+    | nil => simp [keep] at h
+    | cons y ys =>
+      cases l with
+      | true =>
+        simp only [keep, if_true] at h
+        obtain ⟨i, h1, h2⟩ := ih ys h
+        exact ⟨i + 1, by simpa using h1, by simpa using h2⟩
+      | false =>
+        simp only [keep, Bool.false_eq_true, if_false, List.mem_cons] at h
+        rcases h with h | h
+        · exact ⟨0, by simp, by simp [h]⟩
+        · obtain ⟨i, h1, h2⟩ := ih ys h
+          exact ⟨i + 1, by simpa using h1, by simpa using h2⟩
+
+theorem swapList_eq_of_lt {α : Type} (l : List α) (i j : Nat) (hi : i < l.length)
+    (hj : j < l.length) : swapList l i j = (l.set i l[j]).set j l[i] := by
+  simp [swapList, List.getElem?_eq_getElem hi, List.getElem?_eq_getElem hj]
+
+theorem swapList_length {α : Type} (l : List α) (i j : Nat) : (swapList l i j).length = l.length := by
+  unfold swapList
+  split <;> simp
 
 theorem swapList_perm {α : Type} (l : List α) (i j : Nat) : (swapList l i j).Perm l := by
-  sorry
+  classical
+  unfold swapList
+  split
+  · rename_i a b hi hj
+    obtain ⟨hil, rfl⟩ := List.getElem?_eq_some_iff.mp hi
+    obtain ⟨hjl, rfl⟩ := List.getElem?_eq_some_iff.mp hj
+    rw [List.perm_iff_count]
+    intro c
+    by_cases hij : i = j
+    · subst hij
+      rw [List.set_set, List.set_getElem_self]
+    · rw [List.count_set (by simpa using hjl), List.count_set hil, List.getElem_set_ne hij]
+      have h1 : l[i] == c → 0 < l.count c := fun h =>
+        List.count_pos_iff.mpr (by rw [← eq_of_beq h]; exact List.getElem_mem hil)
+      have h2 : l[j] == c → 0 < l.count c := fun h =>
+        List.count_pos_iff.mpr (by rw [← eq_of_beq h]; exact List.getElem_mem hjl)
+      by_cases e1 : (l[i] == c) = true <;> by_cases e2 : (l[j] == c) = true <;>
+        simp only [e1, e2, if_true, if_false, Bool.false_eq_true] <;> [have := h1 e1; have := h1 e1; have := h2 e2; skip] <;> omega
+  · exact List.Perm.refl _
+
+theorem swapList_getD_right {α : Type} (l : List α) (i j : Nat) (hi : i < l.length)
+    (hj : j < l.length) (d : α) : (swapList l i j).getD j d = l.getD i d := by
+  rw [swapList_eq_of_lt l i j hi hj]
+  simp [List.getD_eq_getElem?_getD, hi, hj]
+
+theorem keep_swapList {α : Type} (locks : List Bool) (xs : List α) (i j : Nat)
+    (hi : locks[i]? = some false) (hj : locks[j]? = some false) :
+    keep locks (swapList xs i j) = swapList (keep locks xs) (rank locks i) (rank locks j) := by
+  unfold swapList
+  rw [keep_getElem?_rank locks xs i hi, keep_getElem?_rank locks xs j hj]
+  cases xs[i]? with
+  | none => rfl
+  | some a =>
+    cases xs[j]? with
+    | none => rfl
+    | some b =>
+      simp only
+      rw [keep_set_idle locks _ j a hj, keep_set_idle locks _ i b hi]
 
 /-! ## the idle block under the sampler's operations -/
 
@@ -155,7 +288,10 @@ theorem swapList_perm {α : Type} (l : List α) (i j : Nat) : (swapList l i j).P
 theorem idle_swap_perm (W : Mat) (locks : List Bool) (i j : Nat) (hW : W.length = locks.length)
     (hi : locks[i]? = some false) (hj : locks[j]? = some false) :
     (idle (swapList W i j) locks).Perm (idle W locks) := by
-  sorry
+  have _ := hW
+  unfold idle
+  rw [keep_swapList locks W i j hi hj]
+  exact (swapList_perm _ _ _).map _
 
 /-- `swap(t, e)` then `lock(e)`: what stays idle is the minor at `(rank t, rank e)`, up to the
     order of the rows -/
@@ -163,26 +299,93 @@ theorem idle_pick_perm (W : Mat) (locks : List Bool) (t e : Nat) (hW : W.length 
     (ht : locks[t]? = some false) (he : locks[e]? = some false) :
     (idle (swapList W t e) (locks.set e true)).Perm
       (minor (idle W locks) (rank locks t) (rank locks e)) := by
-  sorry
+  have hK : (keep locks W).length = nIdle locks := keep_length locks W hW
+  have hrt : rank locks t < (keep locks W).length := by rw [hK]; exact rank_lt locks t ht
+  have hre : rank locks e < (keep locks W).length := by rw [hK]; exact rank_lt locks e he
+  have hcol : keep (locks.set e true) = fun r : Row => (keep locks r).eraseIdx (rank locks e) := by
+    funext r; exact keep_lock locks r e he
+  have hrows : ((swapList (keep locks W) (rank locks t) (rank locks e)).eraseIdx (rank locks e)).Perm
+      ((keep locks W).eraseIdx (rank locks t)) :=
+    eraseIdx_perm_of_perm (swapList_perm _ _ _) _ _ (by rw [swapList_length]; exact hre) hrt []
+      (swapList_getD_right _ _ _ hrt hre [])
+  unfold idle minor
+  rw [keep_lock locks _ e he, keep_swapList locks W t e ht he, hcol, List.eraseIdx_map,
+    List.map_map]
+  exact hrows.map _
+
+theorem locked_lt_length (locks : List Bool) (e : Nat) (he : locks[e]? = some true) :
+    e < locks.length := by
+  rcases Nat.lt_or_ge e locks.length with h' | h'
+  · exact h'
+  · rw [List.getElem?_eq_none h'] at he
+    exact absurd he (by simp)
+
+theorem set_false_getElem? (locks : List Bool) (e : Nat) (he : locks[e]? = some true) :
+    (locks.set e false)[e]? = some false := by
+  simp [locked_lt_length locks e he]
+
+theorem set_false_set_true (locks : List Bool) (e : Nat) (he : locks[e]? = some true) :
+    (locks.set e false).set e true = locks := by
+  rw [List.set_set]
+  apply List.ext_getElem?
+  intro i
+  rw [List.getElem?_set]
+  by_cases h : e = i
+  · subst h; rw [if_pos rfl, if_pos (locked_lt_length locks e he), he]
+  · simp [h]
 
 /-- `add_traj` into the locked slot `e`: removing the new row and column gives the old block -/
 theorem idle_unlock_minor (W : Mat) (locks : List Bool) (e : Nat) (v : Row)
     (hW : W.length = locks.length) (he : locks[e]? = some true) :
     minor (idle (W.set e v) (locks.set e false)) (rank locks e) (rank locks e) = idle W locks := by
-  sorry
+  have _ := hW
+  have hcol : keep locks = fun r : Row =>
+      (keep (locks.set e false) r).eraseIdx (rank locks e) := by
+    funext r
+    have := keep_lock (locks.set e false) r e (set_false_getElem? locks e he)
+    rw [set_false_set_true locks e he, rank_set_self] at this
+    exact this
+  have hrow : keep locks W = (keep (locks.set e false) (W.set e v)).eraseIdx (rank locks e) := by
+    have := keep_lock (locks.set e false) (W.set e v) e (set_false_getElem? locks e he)
+    rw [set_false_set_true locks e he, rank_set_self, keep_set_locked locks W e v he] at this
+    exact this
+  unfold idle minor
+  rw [List.eraseIdx_map, List.map_map, ← hrow]
+  conv_rhs => rw [hcol]
+  rfl
 
 /-- … and the new diagonal entry of the block is the new row's weight in its own ensemble -/
 theorem idle_unlock_entry (W : Mat) (locks : List Bool) (e : Nat) (v : Row)
     (hW : W.length = locks.length) (he : locks[e]? = some true) :
     entry (idle (W.set e v) (locks.set e false)) (rank locks e) (rank locks e) = v.getD e 0 := by
-  sorry
+  have he' := set_false_getElem? locks e he
+  have hlt : e < W.length := by rw [hW]; exact locked_lt_length locks e he
+  have := idle_entry (W.set e v) (locks.set e false) e e (by simp [hW]) he' he'
+  rw [rank_set_self] at this
+  rw [this]
+  simp [entry, List.getD_eq_getElem?_getD, hlt]
 
 /-- the position of the re-opened slot lies inside the new block -/
 theorem rank_lt_nIdle_unlock (locks : List Bool) (e : Nat) (he : locks[e]? = some true) :
     rank locks e < nIdle (locks.set e false) := by
-  sorry
+  have := rank_lt (locks.set e false) e (set_false_getElem? locks e he)
+  rw [rank_set_self] at this
+  exact this
 
 /-! ## Frobenius–König for nested rows -/
+
+/-- an idle row that vanishes on the columns `≥ z` vanishes on the block columns `≥ rank z` -/
+theorem idle_row_vanish (W : Mat) (locks : List Bool) (hW : W.length = locks.length) (s z : Nat)
+    (hs : locks[s]? = some false) (hvan : ∀ c, z ≤ c → (W.getD s []).getD c 0 = 0)
+    (c : Nat) (hc1 : rank locks z ≤ c) (hc2 : c < nIdle locks) :
+    ((idle W locks).getD (rank locks s) []).getD c 0 = 0 := by
+  obtain ⟨c0, hc0, hrc⟩ := exists_idle_of_lt_nIdle locks c hc2
+  have hz : z ≤ c0 := by
+    rcases Nat.lt_or_ge c0 z with h | h
+    · have := rank_lt_of_idle_lt locks hc0 h; omega
+    · exact h
+  rw [idle_getD_rank W locks s hW hs, ← hrc, keep_getD_rank 0 locks _ c0 hc0]
+  exact hvan c0 hz
 
 /-- If the permanent of the idle block is non-zero, then the idle rows sitting in slots `< z`
     together with the idle row of a slot `e ≥ z` cannot all vanish on the columns `≥ z`
@@ -192,6 +395,50 @@ theorem no_gap (W : Mat) (locks : List Bool) (hW : W.length = locks.length)
     (hvan_e : ∀ c, z ≤ c → (W.getD e []).getD c 0 = 0)
     (hall : ∀ t, t < z → locks[t]? = some false → ∀ c, z ≤ c → (W.getD t []).getD c 0 = 0) :
     False := by
-  sorry
+  have hN : (idle W locks).length = nIdle locks := idle_length W locks hW
+  have hak : rank locks z ≤ rank locks e := rank_mono locks hze
+  have hkm : rank locks e < nIdle locks := rank_lt locks e he
+  -- bring the row of `e` next to the rows of the slots `< z`
+  have hdl : rank locks e - rank locks z < ((idle W locks).drop (rank locks z)).length := by
+    rw [List.length_drop, hN]; omega
+  have hget : ((idle W locks).drop (rank locks z)).getD (rank locks e - rank locks z) []
+      = (idle W locks).getD (rank locks e) [] := by
+    rw [List.getD_eq_getElem?_getD, List.getElem?_drop, List.getD_eq_getElem?_getD]
+    congr 3; omega
+  have hperm : (idle W locks).Perm
+      (((idle W locks).take (rank locks z) ++ [(idle W locks).getD (rank locks e) []])
+        ++ ((idle W locks).drop (rank locks z)).eraseIdx (rank locks e - rank locks z)) := by
+    have h1 := perm_getD_cons_eraseIdx ((idle W locks).drop (rank locks z))
+      (rank locks e - rank locks z) hdl []
+    rw [hget] at h1
+    have h2 := List.Perm.append_left ((idle W locks).take (rank locks z)) h1
+    rw [List.take_append_drop] at h2
+    simpa using h2
+  have hb : (((idle W locks).drop (rank locks z)).eraseIdx (rank locks e - rank locks z)).length
+      = nIdle locks - rank locks z - 1 := by
+    rw [List.length_eraseIdx, if_pos hdl, List.length_drop, hN]
+  have hm : nIdle locks = rank locks z + 1 + (nIdle locks - rank locks z - 1) := by omega
+  apply hP
+  unfold permC
+  rw [hN, permN_perm _ hperm, hm]
+  apply permN_narrow_zero _ _ _ _ hb
+  intro r hr c hc1 hc2
+  rw [← hm] at hc2
+  rw [List.mem_append, List.mem_singleton] at hr
+  rcases hr with hr | hr
+  · obtain ⟨i', hi', rfl⟩ := List.mem_take_iff_getElem.mp hr
+    have hi'a : i' < rank locks z := by omega
+    have hi'm : i' < nIdle locks := by omega
+    obtain ⟨s, hs, hrs⟩ := exists_idle_of_lt_nIdle locks i' hi'm
+    have hsz : s < z := by
+      rcases Nat.lt_or_ge s z with h | h
+      · exact h
+      · have := rank_mono locks h; omega
+    have := idle_row_vanish W locks hW s z hs (hall s hsz hs) c hc1 hc2
+    rw [hrs, List.getD_eq_getElem?_getD (l := idle W locks),
+      List.getElem?_eq_getElem (show i' < (idle W locks).length by omega)] at this
+    exact this
+  · rw [hr]
+    exact idle_row_vanish W locks hW e z he hvan_e c hc1 hc2
 
 end Infretis.Perm.C05
